@@ -285,9 +285,9 @@ func (w *blobWriter) Write(buf []byte) (int, error) {
 			return 0, err
 		}
 	} else {
-		if w.chunk == nil {
-			w.chunk = make([]byte, 0, w.chunkSize)
-		}
+		// Note: don't allocate w.chunkSize bytes up front:
+		// after a resume the chunk size can be chosen by
+		// the server (OCI-Chunk-Min-Length).
 		w.chunk = append(w.chunk, buf...)
 	}
 	w.size += int64(len(buf))
